@@ -988,7 +988,12 @@ pub fn run_scenario(
                 let d = st.tx.clone().expect("submit needs tx");
                 let tiph = rt.block_on(async { r.node.blockchain.read().await.get_latest_block_id() });
                 let _ = tiph;
-                let ts = r.blocks[&r.tip_label()].block.timestamp + 1;
+                let tipl = r.tip_label();
+                if !r.blocks.contains_key(&tipl) {
+                    trace.emit(json!({"ev": "Skip", "scn": scn_no, "i": r.step_no, "why": "unknown tip"}));
+                    continue;
+                }
+                let ts = r.blocks[&tipl].block.timestamp + 1;
                 match r.world.make_tx(&d, ts) {
                     Ok(tx) => {
                         let sig = tx.signature;
